@@ -176,7 +176,51 @@ func inLoopAnyLevel(li linstr) bool {
 // ---------------------------------------------------------------------------
 // OWN
 
+// checkOpsOwned: a track's op list is its own: it only ever grows by appending to itself (or starts as nil / a fresh
+// make). A list carved out of a shared array lets one track's append overwrite another track's events.
+func (c *Ctx) checkOpsOwned() {
+	n := 0
+	for _, fn := range c.srcFuncs() {
+		allInstrs(fn, func(in ssa.Instruction) {
+			st, ok := in.(*ssa.Store)
+			if !ok {
+				return
+			}
+			fa, ok := st.Addr.(*ssa.FieldAddr)
+			if !ok {
+				return
+			}
+			name, base, _ := fieldName(fa)
+			pt, isPtr := fa.X.Type().Underlying().(*types.Pointer)
+			if name != "ops" || !isPtr || typeName(pt.Elem()) != "midix.Track" {
+				return
+			}
+			n++
+			c.site(1)
+			good := false
+			switch v := st.Val.(type) {
+			case *ssa.Call:
+				if calleeName(&v.Call) == "builtin.append" {
+					if ln, lb, ok := loadedField(v.Call.Args[0]); ok && ln == "ops" && lb == base {
+						good = true
+					}
+				}
+			case *ssa.MakeSlice:
+				good = true
+			case *ssa.Const:
+				good = v.Value == nil
+			}
+			c.check(good, fname(fn)+"|ops-owned", c.pos(st.Pos()), fname(fn), "the op list grows by appending to itself", fname(fn)+": a track's op list is set to something other than append(own list, ...), a fresh make or nil (e.g. a sub-slice of an array shared between tracks): one track's append can then overwrite another track's events")
+		})
+	}
+	if n == 0 {
+		c.site(1)
+		c.bad("midix.Track|ops-owned", "", "midix.Track", "no place appends to a track's op list")
+	}
+}
+
 func ruleOwn(c *Ctx) {
+	c.checkOpsOwned()
 	adders := map[string]int{"midix.Track.Add": 1, "midix.TrackSet.Add": 2, "midix.TrackSetController.Add": 1, "midix.TrackSetController.Distribute": 1}
 	for _, fn := range c.srcFuncs() {
 		for _, ci := range callsIn(fn) {
